@@ -7,7 +7,7 @@ from ..machine import SimWorld, make_machine, replay_trace
 
 
 @st.composite
-def base_cfg(draw, limits="loose", multi_strategy=True, tx_limits=(5000,), custom_control=False, market_types=("WIN", "WIN", "PLACE", "MATCH_ODDS"), handicaps=False, line=False, extra=None):
+def base_cfg(draw, limits="loose", multi_strategy=True, tx_limits=(5000,), custom_control=False, market_types=("WIN", "WIN", "PLACE", "MATCH_ODDS"), handicaps=False, line=False, extra=None, market_limit=False):
     nr = draw(st.integers(2, 4))
     mt = draw(st.sampled_from(list(market_types)))
     spec = world.default_market(0, nr)
@@ -39,6 +39,9 @@ def base_cfg(draw, limits="loose", multi_strategy=True, tx_limits=(5000,), custo
         elif limits == "some":
             s["max_order_exposure"] = draw(st.sampled_from([None, 10, 100]))
             s["max_selection_exposure"] = draw(st.sampled_from([None, 25, 100]))
+        if market_limit and draw(st.booleans()):
+            # the optional per-market limit: the control then evaluates Blotter.market_exposure for every request
+            s["max_market_exposure"] = draw(st.sampled_from([30, 1000]))
         if limits != "none":
             s["max_trade_count"] = draw(st.sampled_from([1, 2, 3, 10**6, 10**6]))
             s["max_live_trade_count"] = draw(st.sampled_from([1, 2, 3, 10**6]))
